@@ -257,18 +257,21 @@ def c07(run):
     run.scen("MC_Map", {"Tier": '"%s"' % run.tier, "Seed": vlib.SEED % 300, "NRand": 800 if run.thorough else 160}, own=by_prefix("save_equiv", "scenario"), name="MC_Map (saved game = map)")
 
 
+BMP_INV = ("ValueIsValid", "FlipTwiceIsIdentity", "FlipReversesRows", "CanonIsCanonical", "EncodedLength", "TilesetLaws", "Export")
+
+
 def IMG_RAND(run):
     return {"Seed": vlib.SEED % 300, "NRand": 1500 if run.thorough else 300}
 
 
 def c08(run):
-    run.scen("MC_Bmp", {"MaxWidth": 70 if run.thorough else 40, "Seed": vlib.SEED % 300, "NRand": 2000 if run.thorough else 300}, own=by_prefix("bmp_", "scenario"))
+    run.scen("MC_Bmp", {"MaxWidth": 70 if run.thorough else 40, "Seed": vlib.SEED % 300, "NRand": 2000 if run.thorough else 300}, invariants=BMP_INV, workers=8, own=by_prefix("bmp_", "scenario"))
     # whatever the reader accepts among the faulted images of the C11 fault model must satisfy the post-conditions C08 states
     run.scen("MC_ImageFault", IMG_RAND(run), small_heap=True, max_crashes=300, own=lambda m: "/postcondition" in m["site"], name="MC_ImageFault (post-conditions of accepted bitmaps)")
 
 
 def c09(run):
-    run.scen("MC_Bmp", {"MaxWidth": 40, "Seed": vlib.SEED % 300, "NRand": 1000 if run.thorough else 200}, own=by_prefix("tileset", "ts_detect", "scenario"))
+    run.scen("MC_Bmp", {"MaxWidth": 40, "Seed": vlib.SEED % 300, "NRand": 1000 if run.thorough else 200}, invariants=BMP_INV, workers=8, own=by_prefix("tileset", "ts_detect", "scenario"))
 
 
 def c10(run):
